@@ -12,12 +12,14 @@ package main
 import (
 	"fmt"
 	"go/constant"
+	"sort"
 	"strings"
 
 	"golang.org/x/tools/go/ssa"
 )
 
 type TSOut struct {
+	Cells map[string]constant.Value // tracked memory cells at the exit (nil if none tracked)
 	A     string
 	Kind  string // "return" | "panic"
 	Ret   []constant.Value
@@ -146,11 +148,11 @@ func (ts *TS) runFn(fr *Frame, initA string, env Env, trail []string) []TSOut {
 					e := phi.Edges[pi]
 					if k, isC := e.(*ssa.Const); isC && k.Value != nil {
 						kv, okc = k.Value, true
-					} else if v, has := it.env[envKey{e, -1}]; has {
+					} else if v, has := it.env[envKey{e, -1, ""}]; has {
 						kv, okc = v, true
 					}
 				}
-				us = append(us, upd{envKey{phi, -1}, kv, okc})
+				us = append(us, upd{envKey{phi, -1, ""}, kv, okc})
 			}
 			for _, u := range us {
 				if u.ok {
@@ -187,7 +189,12 @@ func (ts *TS) addOut(outs *[]TSOut, seen map[string]bool, o TSOut) {
 			rs = append(rs, r.ExactString())
 		}
 	}
-	k := o.Kind + "|" + o.A + "|" + strings.Join(rs, ",")
+	var cs []string
+	for n, v := range o.Cells {
+		cs = append(cs, n+"="+v.ExactString())
+	}
+	sort.Strings(cs)
+	k := o.Kind + "|" + o.A + "|" + strings.Join(rs, ",") + "|" + strings.Join(cs, ",")
 	if seen[k] {
 		return
 	}
@@ -240,7 +247,7 @@ func (ts *TS) execBlock(fr *Frame, b *ssa.BasicBlock, i int, a string, env Env, 
 					rets = append(rets, nil)
 				}
 			}
-			ts.addOut(outs, seenOut, TSOut{A: a, Kind: "return", Ret: rets, Trail: trail, At: in})
+			ts.addOut(outs, seenOut, TSOut{A: a, Kind: "return", Ret: rets, Trail: trail, At: in, Cells: cellsOf(env)})
 			return
 		case *ssa.Panic:
 			na := []string{a}
@@ -296,7 +303,7 @@ func (ts *TS) execBlock(fr *Frame, b *ssa.BasicBlock, i int, a string, env Env, 
 			}
 			for ch := lo; ch < n; ch++ {
 				e2 := env.clone()
-				e2[envKey{x, 0}] = constant.MakeInt64(int64(ch))
+				e2[envKey{x, 0, ""}] = constant.MakeInt64(int64(ch))
 				sc2 := &TSCtx{A: a, Env: e2, Frame: fr, Trail: trail, ts: ts}
 				nas := []string{a}
 				if ts.OnSelect != nil {
@@ -324,7 +331,7 @@ func (ts *TS) execBlock(fr *Frame, b *ssa.BasicBlock, i int, a string, env Env, 
 				continue
 			}
 			res := ts.doCall(fr, x, a, env, trail)
-			if len(res) == 1 && res[0].Kind == "return" && res[0].Ret == nil {
+			if len(res) == 1 && res[0].Kind == "return" && res[0].Ret == nil && res[0].Cells == nil && !hasCells(env) {
 				a = res[0].A
 				trail = res[0].Trail
 				continue
@@ -335,21 +342,32 @@ func (ts *TS) execBlock(fr *Frame, b *ssa.BasicBlock, i int, a string, env Env, 
 					continue
 				}
 				e2 := env
-				if len(r.Ret) > 0 {
+				if r.Cells != nil || hasCells(env) {
 					e2 = env.clone()
+					for k := range e2 {
+						if k.cell != "" {
+							delete(e2, k)
+						}
+					}
+					for n, v := range r.Cells {
+						e2[envKey{nil, 0, n}] = v
+					}
+				}
+				if len(r.Ret) > 0 {
+					e2 = e2.clone()
 					if v, ok := in.(ssa.Value); ok {
 						if len(r.Ret) == 1 {
 							if r.Ret[0] != nil {
-								e2[envKey{v, -1}] = r.Ret[0]
+								e2[envKey{v, -1, ""}] = r.Ret[0]
 							} else {
-								delete(e2, envKey{v, -1})
+								delete(e2, envKey{v, -1, ""})
 							}
 						} else {
 							for ti, rv := range r.Ret {
 								if rv != nil {
-									e2[envKey{v, ti}] = rv
+									e2[envKey{v, ti, ""}] = rv
 								} else {
-									delete(e2, envKey{v, ti})
+									delete(e2, envKey{v, ti, ""})
 								}
 							}
 						}
@@ -359,6 +377,17 @@ func (ts *TS) execBlock(fr *Frame, b *ssa.BasicBlock, i int, a string, env Env, 
 			}
 			return
 		default:
+			if st, isStore := in.(*ssa.Store); isStore && ts.Ev != nil && ts.Ev.Cell != nil {
+				if name, ok := ts.Ev.Cell(st.Addr, fr); ok {
+					env = env.clone()
+					if k, okc := ts.Ev.eval(st.Val, env, fr); okc {
+						env[envKey{nil, 0, name}] = k
+					} else {
+						delete(env, envKey{nil, 0, name})
+					}
+					sc.Env = env
+				}
+			}
 			if ts.OnInstr != nil {
 				if r := ts.OnInstr(sc, in); r != nil {
 					if len(r) == 1 {
@@ -399,7 +428,7 @@ func (ts *TS) doCall(fr *Frame, call ssa.CallInstruction, a string, env Env, tra
 		}
 		var out []TSOut
 		for _, na := range nas {
-			out = append(out, TSOut{A: na, Kind: "return", Trail: sc.Trail})
+			out = append(out, TSOut{A: na, Kind: "return", Trail: sc.Trail, Cells: cellsOf(env)})
 		}
 		return out
 	}
@@ -418,7 +447,7 @@ func (ts *TS) doCall(fr *Frame, call ssa.CallInstruction, a string, env Env, tra
 				why = "recursion"
 			}
 			ts.Truncated = append(ts.Truncated, fmt.Sprintf("%s at %s→%s", why, fr.chain(), fname(f)))
-			out = append(out, TSOut{A: a, Kind: "return", Trail: trail})
+			out = append(out, TSOut{A: a, Kind: "return", Trail: trail, Cells: cellsOf(env)})
 			continue
 		}
 		nfr := &Frame{Fn: f, Site: call, Parent: fr, Depth: fr.Depth + 1}
@@ -441,4 +470,26 @@ func (ts *TS) doCall(fr *Frame, call ssa.CallInstruction, a string, env Env, tra
 		}
 	}
 	return out
+}
+
+func cellsOf(env Env) map[string]constant.Value {
+	var m map[string]constant.Value
+	for k, v := range env {
+		if k.cell != "" {
+			if m == nil {
+				m = map[string]constant.Value{}
+			}
+			m[k.cell] = v
+		}
+	}
+	return m
+}
+
+func hasCells(env Env) bool {
+	for k := range env {
+		if k.cell != "" {
+			return true
+		}
+	}
+	return false
 }
